@@ -323,7 +323,11 @@ def run_real(edges, flowj, aname, vname, ncompute=1, poke=True):
     for item in flowj:
         sib.fill(mkvalue(item))
     res = [take(sib.compute()) for _ in range(ncompute)]
+    LIVE_VAR[0] = var
     return sib, res, var_context, given
+
+
+LIVE_VAR = [None]      # the Variable object handed to the last SplitIntoBins built by run_real
 
 
 def routing_diagnosis(edges, flowj, vname):
@@ -435,6 +439,20 @@ def check_sib(edges, flowj, aname, vname, twice=False):
                                 "context.variable = %r, the argument variable is %r" % (cv, var_context)))
     if given != edges:
         bad.append(("SplitIntoBins/given-edges-modified", "edges %r became %r" % (edges, given)))
+    # the argument variable is only DESCRIBED in the yielded contexts: the Variable object itself (it may be shared with other
+    # elements, and every later compute() describes it again) is left as it was given
+    if LIVE_VAR[0] is not None and LIVE_VAR[0].var_context != var_context:
+        bad.append(("SplitIntoBins/argument-variable-modified", "after %d compute() the argument variable's own context is %r, "
+                    "it was given as %r" % (ncomp, LIVE_VAR[0].var_context, var_context)))
+    # compute() without a fill in between describes the same variable: the same context.variable both times
+    if ncomp == 2 and has_old_variable and len(res[0]) == len(res[1]):
+        for k, (v1, v2) in enumerate(zip(res[0], res[1])):
+            if isinstance(v1, tuple) and isinstance(v2, tuple) and len(v1) == 2 and len(v2) == 2 \
+                    and isinstance(v1[1], dict) and isinstance(v2[1], dict) and v1[1].get("variable") != v2[1].get("variable"):
+                bad.append(("SplitIntoBins/second-compute/context.variable-differs-from-the-first",
+                            "result %d: context.variable = %r at the first compute(), %r at the second (nothing was filled "
+                            "in between)" % (k, v1[1].get("variable"), v2[1].get("variable"))))
+                break
 
     # values outside the edges are ignored: the yielded values do not depend on them
     inside = [item for item in flowj if cell_of(item, vname, edges) is not None]
@@ -930,6 +948,9 @@ def _body(R):
              [[0, 1, 1, None], [1, 0, 2, {"k": 2}], [2.5, 1, 3, None], [3, 3, 4, {"k": 4}], [-1, 0, 5, None], [0.5, 2.5, 6, {"k": 6}], [1, 1, 7, None]],
              [[x, y, t + 1, ctx_for(t + 1, 1)] for t, (x, y) in enumerate(
                  [(0, 0), (2, 3), (1, 1), (0.5, 2), (1, 1), (3, 0), (-0.5, 1), (1.5, 1.5), (0, 2.999), (1.999, 0), (0, -1), (1, 1)])]]
+    # (a fourth flow whose values already carry a typed context.variable, as they do after a Variable upstream)
+    fixed.append([[x, y, t + 1, {"variable": {"name": "p", "type": "particle", "particle": {"name": "p"}}, "k": t}]
+                  for t, (x, y) in enumerate([(0, 0), (1, 1), (2, 3), (0.5, 2), (1.5, 0.5)])])
     for aname in AN_NAMES:
         for dim in (1, 2):
             for vname in sorted(ARGVARS[dim]):
